@@ -55,8 +55,30 @@ static void *pinger(void *a){ (void)a; while(!atomic_load(&pinger_stop)){ for(in
 static atomic_int wd_off;
 static void *watchdog(void *a){ (void)a; long last=-1; int same=0; for(;;){ usleep(200000); if(atomic_load(&wd_off)) return 0; long d=atomic_load(&okw)+atomic_load(&tmo)+atomic_load(&sigDone);
   if(d==last) same++; else same=0; last=d; if(same>=100){ printf("STUCK no dispatch_semaphore_wait / signal call returned for 20 s (a timed wait never came back, or a waiter was never released): successes %ld timeouts %ld signals %ld\n",atomic_load(&okw),atomic_load(&tmo),atomic_load(&sigDone)); fflush(stdout); _exit(3); } } return 0; }
+// ---- forced history: a waiter asleep, the signal that takes the slow path (count -1 -> 0) is held before it posts, a second signal
+// (0 -> 1, fast path) returns meanwhile, the first one goes on: the sleeping waiter must be released ("no lost signal") and the
+// second permit stays obtainable.
+static dispatch_semaphore_t FS; static atomic_int fs_arm, fs_held, fs_go; static pthread_t fs_main;
+static void fscb(const volatile void *addr, unsigned size, int op, uint64_t o, uint64_t n, const char *func, int line){ (void)addr;(void)size;(void)op;(void)o;(void)line;
+  if(strcmp(func,"dispatch_semaphore_signal") || (long)n>0) return;            // the increment that found a waiter
+  if(atomic_exchange(&fs_arm,0)){ atomic_store(&fs_held,1); for(int w=0; w<20000 && !atomic_load(&fs_go); w++) usleep(50); } }
+static void *fs_waiter(void *a){ _Atomic int *got=a; if(dispatch_semaphore_wait(FS,DISPATCH_TIME_FOREVER)==0) atomic_store(got,1); return 0; }
+static void *fs_signal1(void *a){ (void)a; dispatch_semaphore_signal(FS); return 0; }
+static int forced_two_signals(void){ for(int r=0;r<3;r++){ FS=dispatch_semaphore_create(0); _Atomic int got=0; pthread_t w, s1;
+    pthread_create(&w,0,fs_waiter,&got); usleep(5000);                        // the waiter is asleep (count -1)
+    atomic_store(&fs_held,0); atomic_store(&fs_go,0); _dispatch_verif_atomic_cb=fscb; atomic_store(&fs_arm,1);
+    pthread_create(&s1,0,fs_signal1,0); for(int k=0;k<4000 && !atomic_load(&fs_held);k++) usleep(50);
+    dispatch_semaphore_signal(FS);                                            // second signal: fast path
+    atomic_store(&fs_go,1); pthread_join(s1,0); _dispatch_verif_atomic_cb=0;
+    for(int k=0;k<3000 && !atomic_load(&got);k++) usleep(1000);
+    if(!atomic_load(&got)){ printf("ORACLE VIOL seed=%llu a waiter blocked without timeout was not released although two signals had been issued (the one that found it waiting was overtaken by a second one before it posted): round %d, first signal was held %d\n",(unsigned long long)seed,r,atomic_load(&fs_held)); fflush(stdout); return 1; }
+    pthread_join(w,0);
+    if(dispatch_semaphore_wait(FS,dispatch_time(DISPATCH_TIME_NOW,1000000000ll))){ printf("ORACLE VIOL seed=%llu two signals for one waiter: the second permit was not obtainable afterwards: round %d\n",(unsigned long long)seed,r); fflush(stdout); return 1; }
+    dispatch_release(FS); }
+  return 0; }
 int main(int argc, char **argv){
   seed = argc>1 ? strtoull(argv[1],0,0) : 1; int nthr = argc>2 ? atoi(argv[2]) : 4; nops = argc>3 ? atoi(argv[3]) : 300; init = argc>4 ? atol(argv[4]) : 2;
+  if(forced_two_signals()) return 1;
   evs = calloc(MAXEV, sizeof(ev_t)); S = dispatch_semaphore_create(init);
   _dispatch_verif_yield_cb = ycb; _dispatch_verif_atomic_cb = cb;
   struct sigaction sa; memset(&sa,0,sizeof sa); sa.sa_handler=on_usr1; sigaction(SIGUSR1,&sa,0);
